@@ -27,15 +27,23 @@ PROP = {
              "hot user) against 4 pollers on the real handler (GET /traffic?clear=1, GET /traffic, GET /online, requests "
              "without the secret) and a kicker (POST /kick); per user and direction, exact integers: sum of cleared "
              "snapshots + final snapshot == sum of the reports that returned true; refusals <= kick requests; sequential "
-             "epilogue kick -> refused once -> allowed, refused bytes not counted, online +n/-n -> not listed. "
+             "epilogue kick -> refused once -> allowed, refused bytes not counted, online +n/-n -> not listed; "
+             "kick while the user has 1 / 2 / 0 connections online, all of them go offline without a report, the user "
+             "comes back online, next report must be the refused one and the one after allowed. "
              "linhist: short histories (about 60 operations, 21 clients released by a spin barrier, call/return stamps from "
-             "one atomic counter, sequential epilogue exposing the final state) judged offline by porcupine against a "
-             "per-user sequential model (counters, kick flag consumed by the one report it refuses, online count), "
-             "2-minute cap per history, timeout = inconclusive. census: PRNG scripts over 7..9 connections per real "
+             "one atomic counter; a third of the loggers are 'session' clients online -> [report] -> offline; in half of the "
+             "histories one user is 'quiet': sessions and kicks but no report before the epilogue, so kicks stay pending "
+             "across 0 -> n -> 0 online transitions; sequential epilogue per user: report, online x(0|1|2), kick, offline "
+             "back to 0, online, report, report, offline, then snapshots) judged offline by porcupine against a "
+             "per-user sequential model (counters, kick flag consumed by the one report it refuses and untouched by "
+             "online/offline, online count), "
+             "2-minute cap per history, timeout = inconclusive. census: PRNG scripts over 11..14 connections per real "
              "server (real clients and raw QUIC/h3 clients on simnet, virtual time) with the real stats server as "
              "TrafficLogger behind a recording pass-through: concurrent connects, rejected and repeated and racing "
              "authentications, TCP/UDP traffic, kick via each of the four report sites, client close, blackholed "
-             "client (30 s idle timeout), server close; after every step, at virtual quiescence, per user: "
+             "client (30 s idle timeout), kick of a user whose 1..2 connections all close before any traffic and who "
+             "then reconnects (first report refused and that connection disconnected, next connection accepted), kick of "
+             "a user who has never been online and then connects, server close; after every step, at virtual quiescence, per user: "
              "sum(online)-sum(offline) == live authenticated connections == GET /online, never negative, 0 at the end. "
              "Non-trivial = round with non-empty cleared snapshots and refusals / history with overlapping operations "
              "on one user / census script containing a kick or a non-client-close ending; distinct = distinct script."),
